@@ -109,6 +109,19 @@ def progDslash (m : Mode) (a : Arr) (c : Ctx) : List Instr :=
     [.setAxis none] ++ loopItems (iterDescendants m a true c.item) ++ [.restore c]
   else [.setAxis none, .yield c.item, .restoreAxis c.axis]
 
+/-- `XPathContext.__copy__` (xpath_context.py:193-204): same item / position / size, `axis = None` -/
+def copyCtx (c : Ctx) : Ctx := ⟨c.item, none⟩
+
+/-- Context state in which the k-th operand of `and` / `or` (and a predicate expression, a union
+operand) starts: `self[k].select(copy(context))` — a fresh copy of the operator's own context, whatever
+state the evaluation of the previous operand left behind (`boolean_value` stops at the first node, i.e.
+abandons the operand's generator: `closeAfter`). -/
+def operandStart (c : Ctx) (_leftBehindByPreviousOperand : Ctx) : Ctx := copyCtx c
+
+/-- the seeded variant "one shared copy for both operands": the second operand starts where the first
+one's generator was abandoned -/
+def operandStartShared (_c : Ctx) (leftBehindByPreviousOperand : Ctx) : Ctx := leftBehindByPreviousOperand
+
 /-- what a node test does when the axis method calls `self[0].select(context)` at a yield:
 `iter_matching_nodes` / `iter_children_or_self` with `context.axis` set test **`context.item`**
 (not the yielded value) against the principal node kind derived from `context.axis`. -/
